@@ -62,7 +62,7 @@ def _general_safety():
         j = z3.Int("j!pre")
         n = zlen(par.length)
         it.ctx.assume(z3.ForAll([j], z3.Implies(z3.And(j >= 0, j < n), z3.Or(z3.Select(par.arr, j) == 0, z3.Select(par.arr, j) == 1))))
-        it.ctx.assume(z3.ForAll([j], z3.Implies(z3.And(j >= 0, j < perm.length), z3.And(z3.Select(perm.arr, j) >= 0, z3.Select(perm.arr, j) < n))))
+        it.ctx.assume(z3.ForAll([j], z3.Implies(z3.And(j >= 0, j < perm.length), z3.And(z3.Select(perm.arr, j) >= -n, z3.Select(perm.arr, j) < n))))  # axes may count from the end
 
         def inv_outer(it_, env, g):
             return [("swaps_nonneg", I(env.vars["swaps"]) >= 0)]
